@@ -83,6 +83,14 @@ func (r *Run) callInstr(t *Thread, fr *Frame, in *ssa.Call) bool {
 			fr.pc++
 			return true
 		}
+		if b.Name() == "len" || b.Name() == "cap" {
+			if ch, ok := args[0].(*ChanObj); ok && ch != nil && b.Name() == "len" {
+				// the length of a channel is shared state: reading it is a scheduling point
+				if !r.syncPoint(t, &pendOp{kind: "len(chan)"}) {
+					return false
+				}
+			}
+		}
 		val := r.builtin(b.Name(), args, common.Args, in.Type())
 		r.set(fr, in, val)
 		fr.pc++
